@@ -372,6 +372,65 @@ impl C12 {
                             return;
                         }
                         rep.count("decoded_same");
+                        // ... through every other decoding door as well: the written chain inside a
+                        // complete IPv6 packet
+                        let mut base = Ipv6Header::default();
+                        base.next_header = IpNumber(c.first);
+                        base.payload_length = (out.len() + 4) as u16;
+                        base.hop_limit = 9;
+                        let mut pkt = base.to_bytes().to_vec();
+                        pkt.extend_from_slice(&out);
+                        pkt.extend_from_slice(&[1, 2, 3, 4]);
+                        let want_h = IpHeaders::Ipv6(base.clone(), exts.clone());
+                        let doors = shell::guarded(|| {
+                            let mut v: Vec<(&'static str, u8, bool)> = Vec::new();
+                            if let Ok(ip) = IpSlice::from_slice(&pkt) {
+                                v.push(("IpSlice::payload_ip_number", ip.payload_ip_number().0, true));
+                                v.push(("IpSlice::payload().ip_number", ip.payload().ip_number.0, ip.payload().payload == &[1, 2, 3, 4]));
+                                v.push(("IpSlice::header().payload_ip_number", ip.header().payload_ip_number().0, true));
+                                v.push(("IpSlice::to_header", *last, ip.to_header() == want_h));
+                                v.push(("IpHeadersSlice::try_to_header", *last, ip.header().try_to_header().ok().as_ref() == Some(&want_h)));
+                                v.push(("IpHeadersSlice::header_len", *last, ip.header().header_len() == 40 + out.len()));
+                            } else {
+                                v.push(("IpSlice::from_slice", 0, false));
+                            }
+                            if let Ok(ip6) = Ipv6Slice::from_slice(&pkt) {
+                                v.push(("Ipv6Slice::payload().ip_number", ip6.payload().ip_number.0, ip6.payload().payload == &[1, 2, 3, 4]));
+                                let n = ip6.extensions().clone().into_iter().count();
+                                v.push(("Ipv6ExtensionsSlice::into_iter().count", *last, n == visited.len()));
+                            } else {
+                                v.push(("Ipv6Slice::from_slice", 0, false));
+                            }
+                            match IpHeaders::from_slice(&pkt) {
+                                Ok((h, p)) => v.push(("IpHeaders::from_slice", p.ip_number.0, h == want_h && p.payload == &[1, 2, 3, 4])),
+                                Err(_) => v.push(("IpHeaders::from_slice", 0, false)),
+                            }
+                            match Ipv6ExtensionsSlice::from_slice(IpNumber(c.first), &out) {
+                                Ok((sl, n, rest)) => v.push(("Ipv6ExtensionsSlice::from_slice", n.0, rest.is_empty() && sl.slice().len() == out.len())),
+                                Err(_) => v.push(("Ipv6ExtensionsSlice::from_slice", 0, false)),
+                            }
+                            v
+                        });
+                        match doors {
+                            Ok(v) => {
+                                for (door, n, ok) in v {
+                                    rep.evals += 1;
+                                    if n != *last || !ok {
+                                        rep.violation(
+                                            &format!("decode_door_differs|{}", door),
+                                            format!("{}: {} gives final number {} (structure ok: {}), the chain links to {}", ctx, door, n, ok, last),
+                                            &pkt,
+                                        );
+                                        return;
+                                    }
+                                }
+                                rep.count("decoded_same_through_all_doors");
+                            }
+                            Err(p) => {
+                                rep.violation(&format!("panic|decode_doors|{}", p.location()), p.0, &pkt);
+                                return;
+                            }
+                        }
                     }
                     Ok(Err(e)) => {
                         rep.violation("decode_fails", format!("{}: decoding the written bytes fails: {:?}", ctx, e), &out);
@@ -633,10 +692,10 @@ impl Monitor for C12 {
     fn engines(&self, tier: Tier) -> Vec<(&'static str, u64)> {
         vec![
             ("exhaustive", EXHAUSTIVE),
-            ("random", tier.pick(300_000, 4_000_000)),
+            ("random", tier.pick(300_000, 160_000_000)),
             ("set_next_headers", tier.pick(48 * 256 * 4, 48 * 256 * 40)),
             ("ipv4_wrappers", tier.pick(128 * 40, 128 * 400)),
-            ("api", tier.pick(2_000, 20_000)),
+            ("api", tier.pick(2_000, 800_000)),
         ]
     }
 
